@@ -144,6 +144,12 @@ impl<T> Clone for Receiver<T> {
 
 impl<T> Drop for Sender<T> {
     fn drop(&mut self) {
+        // While a task unwinds (a worker that found its channel closed after
+        // the command had already failed) the scheduler must not be entered
+        // again: a second panic inside a destructor would abort the process.
+        if std::thread::panicking() {
+            return;
+        }
         if let Ok(mut st) = self.ch.st.lock() {
             st.senders -= 1;
             if st.senders == 0 {
@@ -155,6 +161,9 @@ impl<T> Drop for Sender<T> {
 
 impl<T> Drop for Receiver<T> {
     fn drop(&mut self) {
+        if std::thread::panicking() {
+            return;
+        }
         if let Ok(mut st) = self.ch.st.lock() {
             st.receivers -= 1;
             if st.receivers == 0 {
